@@ -157,6 +157,34 @@ pub fn run(ctx: &Ctx, rep: &mut Report) {
 
 /// the value of `call` right after the definition against the value of the same call placed in
 /// every context of the context grammar, each of which rebinds the name `shadow`
+/// closed after capture, hereditarily: the function, and every function it captured (at any depth, also
+/// inside captured lists and records), has no free name other than parameters, captured names, built-ins
+/// and its own name.  Only such functions are promised to be call-site independent (a generated prefix
+/// statement may have failed, leaving a name the body uses unbound at definition).
+fn hereditarily_closed(v: &blots_core::values::Value, heap: &blots_core::heap::Heap, budget: &mut usize) -> bool {
+    use blots_core::heap::{HeapPointer, HeapValue};
+    use blots_core::values::Value;
+    if *budget == 0 {
+        return false;
+    }
+    *budget -= 1;
+    match v {
+        Value::Lambda(p) => {
+            let empty = blots_core::environment::Environment::new();
+            if blots_core::expressions::validate_portable_value(v, heap, &empty).is_err() {
+                return false;
+            }
+            match p.reify(heap) {
+                HeapValue::Lambda(def) => def.scope.iter().all(|(_, x)| hereditarily_closed(x, heap, budget)),
+                _ => false,
+            }
+        }
+        Value::List(p) => match p.reify(heap) { HeapValue::List(l) => l.iter().all(|x| hereditarily_closed(x, heap, budget)), _ => false },
+        Value::Record(p) => match p.reify(heap) { HeapValue::Record(r) => r.values().all(|x| hereditarily_closed(x, heap, budget)), _ => false },
+        _ => true,
+    }
+}
+
 fn check_contexts(model: &mut Model, rep: &mut Report, prefix: &str, def: &str, call: &str, shadow: &str, i: usize) {
     let contexts = vec![
         call.to_string(),
@@ -184,6 +212,13 @@ fn check_contexts(model: &mut Model, rep: &mut Report, prefix: &str, def: &str, 
     let reference = &sess.outcomes[base_idx];
     if reference.contains("(lambda") {
         return;
+    }
+    match sess.env.get("clo") {
+        Some(f) if hereditarily_closed(&f, &sess.heap.borrow(), &mut 5000) => rep.count("closed-after-capture"),
+        _ => {
+            rep.count("not-closed-after-capture");
+            return;
+        }
     }
     let mut idx = base_idx;
     for c in contexts.iter() {
